@@ -72,7 +72,7 @@ func main() {
 		for _, k := range sortedKeys(stats) {
 			fmt.Fprintf(os.Stderr, "%s=%d\n", k, stats[k])
 		}
-	case "arith", "taintops", "filters", "resources", "awsops", "fleetops", "validate", "decode", "startup":
+	case "arith", "taintops", "filters", "resources", "awsops", "fleetops", "validate", "decode", "startup", "assemble":
 		stats := map[string]int{}
 		r := newRng(*seed)
 		switch stream {
@@ -95,6 +95,8 @@ func main() {
 			runDecode(w, stats)
 		case "startup":
 			runStartup(r, *n, *bin, w, stats)
+		case "assemble":
+			runAssemble(r, *n, *bin, w, stats)
 		}
 		for _, k := range sortedKeys(stats) {
 			fmt.Fprintf(os.Stderr, "%s=%d\n", k, stats[k])
